@@ -54,14 +54,13 @@ func convertPathToURL(path string, baseDir string, baseURL *url.URL) (string, er
 	if err != nil {
 		return "", fmt.Errorf("Cannot make relative path for %q: %v", path, err)
 	}
-	var result *url.URL
+	// The relative path is a path, not a URL reference: it must not be parsed as
+	// one, or file names containing '#', '?', '%' or ':' would be taken for a
+	// fragment, a query, an escape sequence or a scheme. url.URL.String()
+	// percent-encodes the path as needed.
+	result := &url.URL{Path: filepath.ToSlash(relPath)}
 	if baseURL != nil {
-		result, err = baseURL.Parse(filepath.ToSlash(relPath))
-	} else {
-		result, err = url.Parse(filepath.ToSlash(relPath))
-	}
-	if err != nil {
-		return "", fmt.Errorf("Failed to construct URL for %s. err: %v", path, err)
+		result = baseURL.ResolveReference(result)
 	}
 	return result.String(), nil
 }
